@@ -449,26 +449,31 @@ def _fmt_t(t):
 
 def check_update(repo, res, rule="R-STEP"):
     f = _func(repo, "_updateStateWithJump")
-    V = [[-1, 0, 2], [1, -3, 0]]
     bad, n = [], 0
-    for idx in (0, 1, 2):
-        for cnt in (None, 1, 4, 0):
-            x = NumArr([10, 20])
-            w = World(repo, Script())
-            args = [x, idx, NumArr([list(r) for r in V])] + ([] if cnt is None else [cnt])
-            try:
-                kind, out = _call(repo, w, f, args)
-            except Undecided as e:
-                res.undecided(rule, f, "column-update", "outside the modelled subset: %s" % e)
-                return 0
-            n += 1
-            c = 1 if cnt is None else cnt
-            want = [10 + V[0][idx] * c, 20 + V[1][idx] * c]
-            if kind == "raise" or not close(out, want):
-                bad.append("event %d fired %s time(s): %s, expected x + V[:, %d]*n = %s" % (idx, "1 (default)" if cnt is None else cnt, ("raises %s" % out) if kind == "raise" else _fmt(out.tolist() if isinstance(out, NumArr) else out), idx, want))
-            if kind == "return" and not close(x, [10, 20]):
-                bad.append("the input state is modified in place (%s)" % _fmt(x.tolist()))
-    res.check(not bad, rule, f, "column-update", "new state = x + (column of the fired event) * count on %d cases; the input state is not modified" % n,
+    # integer and real state vectors, integer and fractional magnitudes, integer and real counts: the result is always x + V[:, idx]*n in exact arithmetic
+    cases = (("int state, int magnitudes", [10, 20], [[-1, 0, 2], [1, -3, 0]]),
+             ("real state, int magnitudes", [10.0, 20.0], [[-1, 0, 2], [1, -3, 0]]),
+             ("int state, fractional magnitudes", [10, 20], [[-0.5, 0.0, 2.5], [0.5, -1.5, 0.0]]),
+             ("real state, fractional magnitudes", [10.5, 20.25], [[-0.5, 0.0, 2.5], [0.5, -1.5, 0.0]]))
+    for label, x0, V in cases:
+        for idx in (0, 1, 2):
+            for cnt in (None, 1, 4, 0, 3.0):
+                x = NumArr(list(x0))
+                w = World(repo, Script())
+                args = [x, idx, NumArr([list(r) for r in V])] + ([] if cnt is None else [cnt])
+                try:
+                    kind, out = _call(repo, w, f, args)
+                except Undecided as e:
+                    res.undecided(rule, f, "column-update", "outside the modelled subset: %s" % e)
+                    return 0
+                n += 1
+                c = 1 if cnt is None else cnt
+                want = [x0[0] + V[0][idx] * c, x0[1] + V[1][idx] * c]
+                if kind == "raise" or not close(out, want):
+                    bad.append("%s, event %d fired %s time(s): %s, expected x + V[:, %d]*n = %s" % (label, idx, "1 (default)" if cnt is None else cnt, ("raises %s" % out) if kind == "raise" else _fmt(out.tolist() if isinstance(out, NumArr) else out), idx, want))
+                if kind == "return" and not close(x, list(x0)):
+                    bad.append("the input state is modified in place (%s)" % _fmt(x.tolist()))
+    res.check(not bad, rule, f, "column-update", "new state = x + (column of the fired event) * count on %d cases (integer and real states, magnitudes and counts); the input state is not modified" % n,
               "; ".join(bad[:3]), node=f.node)
     return n
 
